@@ -82,6 +82,39 @@ int main(void) {
                 free(out); free(exact);
             }
             carquet_buffer_destroy(&b); free(v);
+        } else if (!strcmp(op, "rle_encops") && h_ntok >= 2) {
+            /* rle_encops <w> <seg>...: the STREAMING encoder API. seg = p<v> (put) | r<v>x<count> (put_repeat,
+               count may be 0) ; a final flush.  Prints the bytes, the bytes carquet_rle_encode_all gives for the
+               flattened sequence, and what decode_all returns for the flattened count (exact-size input). */
+            int w = atoi(h_tok[1]);
+            carquet_buffer_t b; carquet_buffer_init(&b);
+            carquet_rle_encoder_t enc; carquet_rle_encoder_init(&enc, &b, w);
+            size_t cap = 16, n = 0; uint32_t* flat = malloc(cap * sizeof(uint32_t));
+            carquet_status_t st = CARQUET_OK;
+            for (int i = 2; i < h_ntok && st == CARQUET_OK; i++) {
+                const char* t = h_tok[i];
+                uint32_t v = (uint32_t)strtoul(t + 1, NULL, 10); int64_t c = 1;
+                if (t[0] == 'r') { const char* x = strchr(t, 'x'); c = x ? atoll(x + 1) : 0; st = carquet_rle_encoder_put_repeat(&enc, v, c); }
+                else st = carquet_rle_encoder_put(&enc, v);
+                while (n + (size_t)c > cap) { cap *= 2; flat = realloc(flat, cap * sizeof(uint32_t)); }
+                for (int64_t k = 0; k < c; k++) flat[n++] = v;
+            }
+            if (st == CARQUET_OK) st = carquet_rle_encoder_flush(&enc);
+            if (st != CARQUET_OK) printf("ERR %d\n", (int)st);
+            else {
+                carquet_buffer_t b2; carquet_buffer_init(&b2);
+                carquet_status_t st2 = carquet_rle_encode_all(flat, (int64_t)n, w, &b2);
+                uint8_t* exact = malloc(b.size ? b.size : 1); if (b.size) memcpy(exact, b.data, b.size);
+                uint32_t* out = malloc((n ? n : 1) * sizeof(uint32_t));
+                int64_t got = carquet_rle_decode_all(exact, b.size, w, out, (int64_t)n);
+                int64_t bad = -1;
+                if (got != (int64_t)n) bad = got < 0 ? 0 : got; else for (size_t k = 0; k < n; k++) if (out[k] != flat[k]) { bad = (int64_t)k; break; }
+                printf("OK "); h_puthex(b.data, b.size); putchar(' ');
+                if (st2 == CARQUET_OK) h_puthex(b2.data, b2.size); else printf("ERR%d", (int)st2);
+                printf(" n=%zu firstdiff=%lld\n", n, (long long)bad);
+                free(out); free(exact); carquet_buffer_destroy(&b2);
+            }
+            carquet_buffer_destroy(&b); free(flat);
         } else if (!strcmp(op, "rle_rtrun") && h_ntok == 5) {
             /* rle_rtrun <w> <k> <v> <count>: the sequence  k alternating literals, count x v, one other value
                is encoded with carquet_rle_encode_all and decoded with decode_all, decode_levels and
